@@ -34,7 +34,23 @@ func extractConc(repo string, o *out) {
 		if idx < 0 || idx+1 >= len(fd.Body.List) {
 			return false
 		}
-		return show(fs, fd.Body.List[idx+1]) == "defer "+recv+".Unlock()"
+		if show(fs, fd.Body.List[idx+1]) != "defer "+recv+".Unlock()" {
+			return false
+		}
+		// ... and the lock is not released and re-taken anywhere in between: exactly one Lock and one (deferred) Unlock on the receiver
+		locks, unlocks := 0, 0
+		ast.Inspect(fd.Body, func(x ast.Node) bool {
+			if c, ok := x.(*ast.CallExpr); ok {
+				switch show(fs, c.Fun) {
+				case recv + ".Lock", recv + ".RLock":
+					locks++
+				case recv + ".Unlock", recv + ".RUnlock":
+					unlocks++
+				}
+			}
+			return true
+		})
+		return locks == 1 && unlocks == 1
 	}
 	coll := wholeBodyLocked("ProxyCollection", "Add", "collection") && wholeBodyLocked("ProxyCollection", "AddOrReplace", "collection") &&
 		wholeBodyLocked("ProxyCollection", "Remove", "collection")
